@@ -36,6 +36,9 @@ func e2eTrack(c *e2eCtx, decoys bool) error {
 			cfg := randomConfig(r, old)
 			if decoys {
 				cfg.Ignores = []string{".git", "vendor", "testdata", "ignoredir", "pkg/l0/ignored_file.go"}
+				if r.Intn(2) == 0 { // entries that sort between an ignored directory and the paths below it
+					cfg.Ignores = []string{".git", "vendor", "testdata", "ignoredir", "ignoredir-old", "ignoredir.go", "ignoredir/tool", "pkg/l0/ignored_file.go", "vendor-x"}
+				}
 				cfg.SkipNested = r.Intn(4) != 0
 				if !cfg.SkipNested && r.Intn(2) == 0 { // nested modules are eligible: also with base INIT
 					cfg.Old = "INIT"
